@@ -61,6 +61,13 @@ def partial_navigation(rng, root_el):
     del root
 
 
+def all_elements(root_el):
+    """the elements of one tree, or of several (a list of root elements), in a fixed order"""
+    if isinstance(root_el, list):
+        return [el for r in root_el for el in r.iter()]
+    return list(root_el.iter())
+
+
 def dump(root_el):
     """the reference graph as plain data + the objects by oid (strong references, to be dropped by the caller)"""
     objs = []
@@ -73,7 +80,7 @@ def dump(root_el):
         return index[id(o)]
     kinds = {}
     entries = []
-    for i, el in enumerate(root_el.iter()):
+    for i, el in enumerate(all_elements(root_el)):
         x = cache.wrappers.get(el)
         ent = {"el": i, "text": el.text, "tail": el.tail, "w": None}
         if x is not None:
@@ -127,7 +134,7 @@ def enc_opt(s):
 
 def observe_after(root_el):
     out = [1]
-    for i, el in enumerate(root_el.iter()):
+    for i, el in enumerate(all_elements(root_el)):
         out += [i, 1 if el in cache.wrappers else 0] + enc_opt(el.text) + enc_opt(el.tail)
     return out
 
@@ -173,8 +180,55 @@ def eviction_case(rng, forced=None):
     return term, got, left, desc
 
 
+def release_case(n_docs):
+    """fixed case of the release clause: the program keeps one chained text node of a first tree (not its
+    predecessor, not the element, not the document), then uses and drops `n_docs` other documents; one collection
+    must leave no node object of the dropped documents behind, and the survivors must be the ones Coq's gc_step names"""
+    gc.collect()
+    gc.collect()
+    d = Document('<root>a</root>')
+    with altered_default_filters():
+        d.root.append_children('b')
+        held = d.root.last_child
+    first = d.root._etree_obj
+    del d
+    gc.collect()
+    gc.collect()
+    others = []
+    for _ in range(n_docs):
+        doc = Document("<r><x>1</x><y>2</y><z/></r>")
+        with altered_default_filters():
+            for node in doc.root.iterate_descendants():
+                pass
+        others.append(doc.root._etree_obj)
+        del doc, node
+    roots = [first] + others
+    entries, objs, kinds = dump(roots)
+    held_ids = [i for i, o in enumerate(objs) if o is held]
+    term = "enc_after (gc_step %s)" % world_term(entries, held_ids)
+    before = len(cache.wrappers)
+    del objs
+    gc.collect()
+    got = observe_after(roots)
+    dropped_left = sum(1 for r in others for el in r.iter() if el in cache.wrappers)
+    with altered_default_filters():
+        same = held.parent.last_child is held
+        tree = str(held.parent)
+    after = len(cache.wrappers)
+    del held
+    gc.collect()
+    gc.collect()
+    left = len(cache.wrappers)
+    if left:
+        cache.wrappers.clear()
+    desc = {"forced": "release: other documents dropped while a chained text node of an earlier tree is held",
+            "held": [(h, kinds.get(h, "?")) for h in held_ids], "n_docs": n_docs, "cached_before": before,
+            "cached_after": after, "dropped_left": dropped_left, "identity_kept": same, "tree": tree, "entries": entries}
+    return term, got, left, desc
+
+
 def part_eviction(ctx, n):
-    cases = []
+    cases = [release_case(3), release_case(25)]
     forced = ["tail head only", "last appended only", "root without document", "document only", "nothing"]
     for i in range(n):
         cases.append(eviction_case(ctx.rng, forced[i] if i < len(forced) else None))
@@ -189,6 +243,13 @@ def part_eviction(ctx, n):
         if model != got:
             ctx.mismatch("GC.gc_step vs a real collection (surviving wrappers, lxml slots)",
                          {"case": desc, "impl": got, "model": model})
+        if desc.get("dropped_left"):
+            ctx.fail("node objects of documents the program dropped are left behind after a collection (while an unrelated "
+                     "text node of another tree is held)", {"kind": "release", "left": desc["dropped_left"],
+                                                            "case": {k: v for k, v in desc.items() if k != "entries"}}, classify)
+        if desc.get("identity_kept") is False or desc.get("tree") not in (None, "<root>ab</root>"):
+            ctx.fail("the held chained text node is no longer what navigation returns / the tree changed",
+                     {"kind": "release", "case": {k: v for k, v in desc.items() if k != "entries"}}, classify)
         if left != 0:
             ctx.fail("cached node objects left behind after all references were dropped", {"kind": "release", "left": left,
                                                                                            "case": desc}, classify)
@@ -857,6 +918,8 @@ def run(ctx, args):
             case = rep.get("case") or {}
             if case.get("prog"):
                 compare_runs(ctx, case["prog"])
+            elif case.get("kind") == "release":
+                part_eviction(ctx, 0)          # the fixed release cases
             return ctx.finish("replay of " + args.replay, level="proof", replay_open=replay_open)
         quick = ctx.tier == "quick"
         part_eviction(ctx, 60 if quick else 1500)
